@@ -14,6 +14,11 @@ class Scratch:
         self.added = []  # (file, lines added)
 
     def __enter__(self):
+        # one run per property at a time (the scratch path is fixed so that cargo's build cache stays valid)
+        import fcntl
+        os.makedirs(SCRATCH_ROOT, exist_ok=True)
+        self._lock = open(os.path.join(SCRATCH_ROOT, self.prop + ".lock"), "w")
+        fcntl.flock(self._lock, fcntl.LOCK_EX)
         os.makedirs(os.path.dirname(self.root), exist_ok=True)
         rc, out, err, _ = sh(["rsync", "-a", "--delete", "--exclude", "/target", "--exclude", "/.git",
                               "--exclude", "/book", REPO + "/", self.root + "/"])
@@ -24,6 +29,10 @@ class Scratch:
     def __exit__(self, *a):
         if not os.environ.get("VERIF_KEEP_SCRATCH"):
             shutil.rmtree(os.path.dirname(self.root), ignore_errors=True)
+        try:
+            self._lock.close()
+        except Exception:
+            pass
 
     def path(self, rel):
         return os.path.join(self.root, rel)
